@@ -552,6 +552,57 @@ func convertStream(w *World, seed uint64, n int, out io.Writer) int {
 			}
 		}
 	}()
+	// … and once more after the pending list has become empty again (every application refused or admitted): the export
+	// must still work and import as an empty list
+	func() {
+		defer func() {
+			if e := recover(); e != nil {
+				bad++
+				fmt.Fprintf(out, "CONVBAD genesis export/import with the pending list empty again panicked: %v\n", e)
+			}
+		}()
+		var txs []Tx
+		for _, op := range []int{5, 3} {
+			txs = append(txs, Tx{Signer: -1, Msgs: []Msg{{Kind: "RMPENDING", Args: []string{itoa(op)}}}})
+		}
+		txs = append(txs, Tx{Signer: -1, Msgs: []Msg{{Kind: "PARAMS", Args: []string{"8000000000", "100", "7", "10000", "0", "0"}}}})
+		txs = append(txs, Tx{Signer: -1, Msgs: []Msg{{Kind: "SETPOWER", Args: []string{"8", "1000000", "1"}}}})
+		o := node.ExecBlock(Block{DtNs: 1_000_000_000, Txs: txs}, nil)
+		for i, t := range o.Txs {
+			if t.Code != 0 {
+				bad++
+				fmt.Fprintf(out, "CONVBAD emptying the pending list: tx %d failed: %s\n", i, t.Log)
+			}
+		}
+		a, _ := node.App.POAKeeper.GetPendingValidators(node.Ctx())
+		if len(a.Validators) != 0 {
+			bad++
+			fmt.Fprintf(out, "CONVBAD pending list not empty: %d\n", len(a.Validators))
+			return
+		}
+		exported := node.App.POAKeeper.ExportGenesis(node.Ctx())
+		bz, err := cdc.MarshalJSON(exported)
+		if err != nil {
+			bad++
+			fmt.Fprintf(out, "CONVBAD genesis marshal (3) %v\n", err)
+			return
+		}
+		gen4 := gen
+		gen4.PoaGenesis = bz
+		node4, _, err := NewNode(w, gen4)
+		if err != nil {
+			bad++
+			fmt.Fprintf(out, "CONVBAD genesis import with an empty pending list: %v\n", err)
+			return
+		}
+		defer node4.Close()
+		node4.ExecBlock(Block{DtNs: 1_000_000_000}, nil)
+		b, err := node4.App.POAKeeper.GetPendingValidators(node4.Ctx())
+		if err != nil || len(b.Validators) != 0 {
+			bad++
+			fmt.Fprintf(out, "CONVBAD genesis import with an empty pending list: %v, %d entries\n", err, len(b.Validators))
+		}
+	}()
 	fmt.Fprintf(out, "CONV records=%d bad=%d\n", n, bad)
 	return bad
 }
